@@ -532,7 +532,7 @@ def run(ctx):
     ctx.cov["translated_spans"] = {k: v for k, v in spans.items() if k.startswith("grid.") or k.startswith("ranges.")}
     for m in msgs:
         ctx.proof_failures.append(("Gen/Ranges.v" if "generator ranges" in m else "Gen/Grid.v", "translator", m))
-    proved = (not msgs) and prove(ctx, "C14", extra_targets=["Model/GridCheck.vo", "Proofs/C14_casetac.vo"])
+    proved = (not msgs) and prove(ctx, "C14", extra_targets=["Model/GridCheck.vo", "Proofs/C14_casetac.vo", "Props/C14_pins.vo"])
     # F6 is fixed (fd4cfc7); its historical record is built separately and a failure there is only a note
     okf, _, _ = coq_build(ctx, ["Findings/C14_transpose.vo"]) if not msgs else (True, [], "")
     if not okf:
